@@ -7,7 +7,7 @@ sys.path.insert(0, os.path.dirname(os.path.abspath(__file__)))
 import seeded
 V = "/verif"
 ids = sys.argv[1:] or sorted(os.listdir(os.path.join(V, "seeded")))
-out_path = os.path.join(V, "seeded", "RESULTS.json")
+out_path = os.environ.get("SEEDED_OUT") or os.path.join(V, "seeded", "RESULTS.json")  # SEEDED_OUT: partial result file of a parallel stream (merged by hand)
 res = json.load(open(out_path)) if os.path.exists(out_path) else {}
 for sid in ids:
     d = os.path.join(V, "seeded", sid)
